@@ -243,6 +243,58 @@ fn handle_toks(toks: &[&str]) -> Option<String> {
                 tag_trace(t, false), tag_trace(t, true), t.encoded_len(), t.number(), cls_of(t)
             )
         }
+        "tag.const" => {
+            let t = match *toks.get(1)? {
+                "END_OF_VALUE" => Tag::END_OF_VALUE,
+                "BOOLEAN" => Tag::BOOLEAN,
+                "INTEGER" => Tag::INTEGER,
+                "BIT_STRING" => Tag::BIT_STRING,
+                "OCTET_STRING" => Tag::OCTET_STRING,
+                "NULL" => Tag::NULL,
+                "OID" => Tag::OID,
+                "OBJECT_DESCRIPTOR" => Tag::OBJECT_DESCRIPTOR,
+                "EXTERNAL" => Tag::EXTERNAL,
+                "REAL" => Tag::REAL,
+                "ENUMERATED" => Tag::ENUMERATED,
+                "EMBEDDED_PDV" => Tag::EMBEDDED_PDV,
+                "UTF8_STRING" => Tag::UTF8_STRING,
+                "RELATIVE_OID" => Tag::RELATIVE_OID,
+                "TIME" => Tag::TIME,
+                "SEQUENCE" => Tag::SEQUENCE,
+                "SET" => Tag::SET,
+                "NUMERIC_STRING" => Tag::NUMERIC_STRING,
+                "PRINTABLE_STRING" => Tag::PRINTABLE_STRING,
+                "TELETEX_STRING" => Tag::TELETEX_STRING,
+                "VIDEOTEX_STRING" => Tag::VIDEOTEX_STRING,
+                "IA5_STRING" => Tag::IA5_STRING,
+                "UTC_TIME" => Tag::UTC_TIME,
+                "GENERALIZED_TIME" => Tag::GENERALIZED_TIME,
+                "GRAPHIC_STRING" => Tag::GRAPHIC_STRING,
+                "VISIBLE_STRING" => Tag::VISIBLE_STRING,
+                "GENERAL_STRING" => Tag::GENERAL_STRING,
+                "UNIVERSAL_STRING" => Tag::UNIVERSAL_STRING,
+                "CHARACTER_STRING" => Tag::CHARACTER_STRING,
+                "BMP_STRING" => Tag::BMP_STRING,
+                "DATE" => Tag::DATE,
+                "TIME_OF_DAY" => Tag::TIME_OF_DAY,
+                "DATE_TIME" => Tag::DATE_TIME,
+                "DURATION" => Tag::DURATION,
+                "OID_IRI" => Tag::OID_IRI,
+                "RELATIVE_OID_IRI" => Tag::RELATIVE_OID_IRI,
+                "CTX_0" => Tag::CTX_0,
+                "CTX_1" => Tag::CTX_1,
+                "CTX_2" => Tag::CTX_2,
+                "CTX_3" => Tag::CTX_3,
+                "CTX_4" => Tag::CTX_4,
+                "CTX_5" => Tag::CTX_5,
+                "CTX_6" => Tag::CTX_6,
+                _ => return None,
+            };
+            format!(
+                "ok w0={} w1={} len={} num={} cls={}",
+                tag_trace(t, false), tag_trace(t, true), t.encoded_len(), t.number(), cls_of(t)
+            )
+        }
         "tag.take" => {
             let data = of_hex(toks.get(1)?)?;
             let mut s = SliceSource::new(&data);
@@ -477,15 +529,36 @@ mod leaf {
         let segs: Vec<String> = os.iter().map(to_hex).collect();
         let octets: Vec<u8> = os.octets().collect();
         format!(
-            "segs={} bytes={} into={} len={} empty={} octets={} slice={}",
+            "segs={} bytes={} into={} len={} empty={} octets={} slice={} src={}",
             if segs.is_empty() { "none".into() } else { segs.join(",") },
             to_hex(os.to_bytes().as_ref()),
             to_hex(os.clone().into_bytes().as_ref()),
             os.len(),
             b01(os.is_empty()),
             to_hex(&octets),
-            match os.as_slice() { Some(s) => to_hex(s), None => "none".into() }
+            match os.as_slice() { Some(s) => to_hex(s), None => "none".into() },
+            to_hex(&os_drain(os))
         )
+    }
+
+    /// the value read through `into_source()`: request 1, 2, 3, 5, 1, … octets at a time
+    pub fn os_drain(os: &OctetString) -> Vec<u8> {
+        use bcder::decode::{Source, IntoSource};
+        let mut src = os.clone().into_source();
+        let mut out = Vec::new();
+        let ks = [1usize, 2, 3, 5];
+        let mut i = 0;
+        loop {
+            let k = ks[i % 4];
+            i += 1;
+            let n = match src.request(k) { Ok(n) => n, Err(_) => break };
+            if n == 0 { break }
+            let t = std::cmp::min(n, k);
+            out.extend_from_slice(&src.slice()[..t]);
+            src.advance(t);
+            if out.len() > 1 << 22 { break }
+        }
+        out
     }
 
     pub fn os_cmp(a: &OctetString, b: &OctetString) -> String {
